@@ -452,10 +452,10 @@ pub fn run(args: &Args) -> Report {
         }
     }
     let plan = Plan {
-        ks: if thorough { vec![0, 1, 2, 3] } else { vec![0, 1, 2] },
+        ks: if thorough { vec![0, 1, 2, 3, 4] } else { vec![0, 1, 2, 3] },
         env: 0,
         fault: 0,
-        total_wall: Duration::from_secs(if thorough { 1500 } else { 35 }),
+        total_wall: Duration::from_secs(if thorough { 1500 } else { 25 }),
         max_execs_per_case: 2_000_000,
         required_witnesses: W_ZERO_SKIPPED | W_LIVE_SKIPPED | W_COLLISION | W_REJECTED_GAVE_UP | W_RETRY_SUCCEEDED | W_ALL_PAIRED,
         witness_names: &[("zero_draw_skipped", W_ZERO_SKIPPED), ("live_id_draw_skipped", W_LIVE_SKIPPED), ("id_collision_and_retry", W_COLLISION), ("gave_up_with_FlowIdRejected", W_REJECTED_GAVE_UP), ("retry_succeeded", W_RETRY_SUCCEEDED), ("all_requests_paired", W_ALL_PAIRED)],
